@@ -430,6 +430,8 @@ class Client:
             login = login.encode("utf-8")
         if isinstance(password, str):
             password = password.encode("utf-8")
+        # saslname: "=" and "," must be encoded (RFC 5801, section 4)
+        login = login.replace(b"=", b"=3D").replace(b",", b"=2C")
         token = b"n,a=" + login + b",\001auth=Bearer " + password + b"\001\001"
         token = base64.b64encode(token)
         code, data = self.__send_command("AUTHENTICATE", [b"OAUTHBEARER", token])
